@@ -358,20 +358,51 @@ theorem addBlocksSorted_regular (ff : FF) (t : Tables κ) (rs : List (ResNode κ
 
 /-! ## sorting by resid -/
 
-theorem leResid_trans (a b c : ResNode κ) : leResid a b = true → leResid b c = true → leResid a c = true := by
-  simp only [leResid, decide_eq_true_eq]
-  omega
+theorem insertByResid_perm (a : ResNode κ) (l : List (ResNode κ)) : (insertByResid a l).Perm (a :: l) := by
+  induction l with
+  | nil => exact List.Perm.refl _
+  | cons b rest ih =>
+    unfold insertByResid
+    split
+    · exact List.Perm.refl _
+    · exact (List.Perm.cons b ih).trans (List.Perm.swap a b rest)
 
-theorem leResid_total (a b : ResNode κ) : (leResid a b || leResid b a) = true := by
-  simp only [leResid, Bool.or_eq_true, decide_eq_true_eq]
-  omega
+theorem insertByResid_sorted (a : ResNode κ) (l : List (ResNode κ))
+    (h : l.Pairwise (fun x y => x.resid ≤ y.resid)) :
+    (insertByResid a l).Pairwise (fun x y => x.resid ≤ y.resid) := by
+  induction l with
+  | nil => simp [insertByResid]
+  | cons b rest ih =>
+    have hb := List.pairwise_cons.mp h
+    unfold insertByResid
+    split
+    · rename_i hlt
+      refine List.pairwise_cons.mpr ⟨?_, h⟩
+      intro x hx
+      rcases List.mem_cons.mp hx with rfl | hx'
+      · exact Nat.le_of_lt hlt
+      · exact Nat.le_trans (Nat.le_of_lt hlt) (hb.1 x hx')
+    · rename_i hge
+      refine List.pairwise_cons.mpr ⟨?_, ih hb.2⟩
+      intro x hx
+      rcases List.mem_cons.mp ((insertByResid_perm a rest).mem_iff.mp hx) with rfl | hx'
+      · exact Nat.le_of_not_lt hge
+      · exact hb.1 x hx'
 
-theorem sortByResid_perm (ns : List (ResNode κ)) : (sortByResid ns).Perm ns := List.mergeSort_perm ns leResid
+theorem sortByResid_perm (ns : List (ResNode κ)) : (sortByResid ns).Perm ns := by
+  induction ns with
+  | nil => exact List.Perm.refl _
+  | cons a rest ih =>
+    simp only [sortByResid, List.foldr_cons]
+    exact (insertByResid_perm a _).trans (List.Perm.cons a ih)
 
 theorem sortByResid_sorted (ns : List (ResNode κ)) :
     (sortByResid ns).Pairwise (fun a b => a.resid ≤ b.resid) := by
-  have := List.pairwise_mergeSort (le := leResid) leResid_trans leResid_total ns
-  exact this.imp (fun h => by simpa [leResid] using h)
+  induction ns with
+  | nil => simp [sortByResid]
+  | cons a rest ih =>
+    simp only [sortByResid, List.foldr_cons]
+    exact insertByResid_sorted a _ ih
 
 /-- sorting nodes whose resids are a permutation of `start, start+1, ...` puts them in that order -/
 theorem sortByResid_range (ns : List (ResNode κ)) (start : Nat)
@@ -594,11 +625,7 @@ theorem filter_const_true {α : Type} (l : List α) : l.filter (fun _ => true) =
   | cons x xs ih => simp [ih]
 
 theorem flush_no_removed (s : LinkSt) (h : s.removed = []) : flush s = s.table.map (·.2) := by
-  have : (fun kv : Key × Ixn => !(kv.1.atoms.any (· ∈ s.removed)) && !((kv.1.version.toNat?).any (· ∈ s.removed)))
-      = fun _ => true := by
-    funext kv
-    simp [h]
-  simp only [flush, this, filter_const_true]
+  simp only [flush, h, List.all_nil, filter_const_true]
 
 /-- Frame property of link application, for ANY sequence of link operations without atom removal, on a
 molecule whose block interactions have pairwise distinct keys: the result is `core ++ genExcl` where
@@ -1566,11 +1593,25 @@ theorem firstNode_rename (f : κ → κ') (hf : Injective f) (ff : FF) (t : Tabl
         · simp [hm, Except.map]
         · simp [hm, Except.map, renameSt, renameAssoc]
 
+theorem insertByResid_rename (f : κ → κ') (a : ResNode κ) (l : List (ResNode κ)) :
+    insertByResid (renameNode f a) (l.map (renameNode f)) = (insertByResid a l).map (renameNode f) := by
+  induction l with
+  | nil => rfl
+  | cons b rest ih =>
+    simp only [List.map_cons, insertByResid]
+    by_cases h : a.resid < b.resid
+    · have h' : (renameNode f a).resid < (renameNode f b).resid := h
+      simp [h, h']
+    · have h' : ¬ (renameNode f a).resid < (renameNode f b).resid := h
+      simp only [h, h', if_false, List.map_cons, ih]
+
 theorem sortByResid_rename (f : κ → κ') (ns : List (ResNode κ)) :
     sortByResid (ns.map (renameNode f)) = (sortByResid ns).map (renameNode f) := by
-  unfold sortByResid
-  exact (List.map_mergeSort (r := leResid) (s := leResid) (f := renameNode f) (l := ns)
-    (fun a _ b _ => rfl)).symm
+  induction ns with
+  | nil => rfl
+  | cons a rest ih =>
+    simp only [sortByResid, List.map_cons, List.foldr_cons] at ih ⊢
+    rw [ih, insertByResid_rename]
 
 /-- `add_blocks` commutes with every injective renaming of the node keys: the molecule is the same, the
 per-residue atom lists are the same under the new names -/
